@@ -325,9 +325,15 @@ def evaluate_rects(case):
 
 
 def bbox_shapes():
+    import re as _re
+
+    from mc.gen import big
     from mc.props import c09, c13
 
     out = [("path", d) for d in BBOX_PATHS]
+    # long curved outlines (60 / 200 segments): the box is still the box of the curve, not of its control points
+    for n in (47, 48, 60, 200):
+        out.append(("path", _re.search(r' d="([^"]+)"', big.long_curve(n)[1]).group(1)))
     out += [("path", d) for d in c13.LIB.values()]
     for case in c09.shape_cases("quick"):
         p = {k: v for k, v in case["p"].items() if v is not None}
